@@ -67,6 +67,29 @@ package decor
 
 // Unwrap returns the wrapped decorator (non-nil: the wrappers are built only around non-nil
 // decorators - struct invariants above); chains are finite (assumed)
+
+// Unwrap hands out exactly the wrapped decorator (the chain unwrap() follows)
+//@ func (metaWrapper).Unwrap
+//@   props    C14 C19 C20 C02
+//@   modifies nothing
+//@   ensures  inner: result == d.Decorator
+//@ func (onCompleteWrapper).Unwrap
+//@   props    C14 C19 C20 C02
+//@   modifies nothing
+//@   ensures  inner: result == d.Decorator
+//@ func (onAbortWrapper).Unwrap
+//@   props    C14 C19 C20 C02
+//@   modifies nothing
+//@   ensures  inner: result == d.Decorator
+//@ func (onCompleteMetaWrapper).Unwrap
+//@   props    C14 C19 C20 C02
+//@   modifies nothing
+//@   ensures  inner: result == d.Decorator
+//@ func (onAbortMetaWrapper).Unwrap
+//@   props    C14 C19 C20 C02
+//@   modifies nothing
+//@   ensures  inner: result == d.Decorator
+
 //@ iface Wrapper.Unwrap
 //@   modifies nothing
 //@   ensures  result != nil
